@@ -69,16 +69,16 @@ var c07Scripts = []c07Script{
 }
 
 type c07Probe struct {
-	count        int64
-	cancelAt     int64
-	cancel       context.CancelFunc
-	cancelled    atomic.Bool
-	afterAbort   int64 // instructions dispatched while the abort flag was set
-	sinceCancel  int64 // instructions dispatched since cancel() while the flag was still clear
-	cancelTime   time.Time
-	sawSuspend   bool
-	forced       string
-	total        int64
+	count       int64
+	cancelAt    int64
+	cancel      context.CancelFunc
+	cancelled   atomic.Bool
+	afterAbort  int64 // instructions dispatched while the abort flag was set
+	sinceCancel int64 // instructions dispatched since cancel() while the flag was still clear
+	cancelTime  time.Time
+	sawSuspend  bool
+	forced      string
+	total       int64
 }
 
 func (p *c07Probe) probe(v *tengo.VM) {
